@@ -31,6 +31,52 @@ theorem satFromStr_ne_panic (s : List Char) (site : String) : satFromStr s ≠ .
   · exact satFromNameLoop_ne_panic 0 (by unfold SUPPLY; omega) s site
   · simp
 
+theorem runeLoop_ne_panic (first : Bool) (x : Nat) (s : List Char) (site : String) :
+    runeLoop first x s ≠ .panic site := by
+  induction s generalizing first x with
+  | nil => simp [runeLoop]
+  | cons c cs ih =>
+    rw [runeLoop]
+    generalize (if first = true then x else x + 1) = x1
+    repeat' split
+    all_goals first | exact ih _ _ | simp
+
+theorem spacedLoopWith_true_ne_panic (letters : List Char) (spacers : Nat) (s : List Char)
+    (site : String) : spacedLoopWith true letters spacers s ≠ .panic site := by
+  induction s generalizing letters spacers with
+  | nil => simp [spacedLoopWith]
+  | cons c cs ih =>
+    rw [spacedLoopWith]
+    split
+    · exact ih _ _
+    · split
+      · split
+        · simp
+        · dsimp only
+          split
+          · simp
+          · split
+            · simp
+            · exact ih _ _
+      · simp
+
+/-- the repaired `SpacedRune::from_str` has no reachable panic site -/
+theorem spacedRuneFromStrWith_true_ne_panic (s : List Char) (site : String) :
+    spacedRuneFromStrWith true s ≠ .panic site := by
+  unfold spacedRuneFromStrWith
+  cases h : spacedLoopWith true [] 0 s with
+  | err e => simp
+  | panic p => exact absurd h (spacedLoopWith_true_ne_panic [] 0 s p)
+  | ok r =>
+    obtain ⟨letters, spacers⟩ := r
+    simp only [Bool.not_true, Bool.false_eq_true, and_false, if_false]
+    split
+    · simp
+    · cases hr : runeFromStr letters with
+      | ok v => simp
+      | err e => simp
+      | panic p => exact absurd hr (runeLoop_ne_panic true 0 letters p)
+
 theorem runeIdFromStr_ne_panic (s : List Char) (site : String) : runeIdFromStr s ≠ .panic site := by
   unfold runeIdFromStr
   split
@@ -72,10 +118,11 @@ theorem tag_ne_panic {α : Type} {t : String} {f : α → Val} {r : Outcome α}
 
 /-- the only panics of `Outgoing::from_str` are those of `SpacedRune::from_str` on the name
 captured by the RUNE regex (the repaired `Decimal::from_str` is total) -/
-theorem parse_panic_only_rune (s : List Char) (site : String) (h : parse s = .panic site) :
+theorem parse_panic_only_rune (fixed : Bool) (s : List Char) (site : String)
+    (h : parseWith fixed s = .panic site) :
     ∃ num name, Regex.runeCaptures s = some (num, name) ∧
-      Sub.spacedRuneFromStr name = .panic site := by
-  unfold parse at h
+      Sub.spacedRuneFromStrWith fixed name = .panic site := by
+  unfold parseWith at h
   split at h
   · exact absurd h (tag_ne_panic (Sub.satFromStr_ne_panic s) site)
   · split at h
@@ -92,7 +139,7 @@ theorem parse_panic_only_rune (s : List Char) (site : String) (h : parse s = .pa
             | panic p => exact absurd hd (DecimalFixed.fromStr_ne_panic num p)
             | ok d =>
               simp only [hd] at h
-              cases hr : Sub.spacedRuneFromStr name with
+              cases hr : Sub.spacedRuneFromStrWith fixed name with
               | err e => simp [hr] at h
               | panic p => simp only [hr, Outcome.panic.injEq] at h; rw [h]
               | ok r => obtain ⟨a, b⟩ := r; simp [hr] at h
@@ -105,9 +152,9 @@ theorem tag_ok {α : Type} {t : String} {f : α → Val} {r : Outcome α} {v : V
   | err e => simp [tag] at h
   | panic p => simp [tag] at h
 
-theorem parse_ok_satPoint {s : List Char} {v : SatPoint.Val} (h : parse s = .ok (.satPoint v)) :
-    SatPoint.Denotes s v := by
-  unfold parse at h
+theorem parse_ok_satPoint {fixed : Bool} {s : List Char} {v : SatPoint.Val}
+    (h : parseWith fixed s = .ok (.satPoint v)) : SatPoint.Denotes s v := by
+  unfold parseWith at h
   split at h
   · obtain ⟨a, _, hv⟩ := tag_ok h; cases hv
   · split at h
@@ -128,9 +175,9 @@ theorem parse_ok_satPoint {s : List Char} {v : SatPoint.Val} (h : parse s = .ok 
               · cases h
           · cases h
 
-theorem parse_ok_inscriptionId {s : List Char} {v : InscriptionId.Val}
-    (h : parse s = .ok (.inscriptionId v)) : InscriptionId.Denotes s v := by
-  unfold parse at h
+theorem parse_ok_inscriptionId {fixed : Bool} {s : List Char} {v : InscriptionId.Val}
+    (h : parseWith fixed s = .ok (.inscriptionId v)) : InscriptionId.Denotes s v := by
+  unfold parseWith at h
   split at h
   · obtain ⟨a, _, hv⟩ := tag_ok h; cases hv
   · split at h
@@ -180,9 +227,10 @@ theorem parseInscription_ne_panic (s : List Char) (site : String) :
       · simp
 
 /-- `query::Rune` panics only where `SpacedRune::from_str` does -/
-theorem parseRune_panic_only_spaced (s : List Char) (site : String) (h : parseRune s = .panic site) :
-    Sub.spacedRuneFromStr s = .panic site := by
-  unfold parseRune at h
+theorem parseRune_panic_only_spaced (fixed : Bool) (s : List Char) (site : String)
+    (h : parseRuneWith fixed s = .panic site) :
+    Sub.spacedRuneFromStrWith fixed s = .panic site := by
+  unfold parseRuneWith at h
   split at h
   · cases hr : Sub.runeIdFromStr s with
     | ok v => obtain ⟨a, b⟩ := v; simp [hr] at h
@@ -190,7 +238,7 @@ theorem parseRune_panic_only_spaced (s : List Char) (site : String) (h : parseRu
     | panic p => exact absurd hr (Sub.runeIdFromStr_ne_panic s p)
   · split at h
     · split at h <;> cases h
-    · cases hr : Sub.spacedRuneFromStr s with
+    · cases hr : Sub.spacedRuneFromStrWith fixed s with
       | ok v => obtain ⟨a, b⟩ := v; simp [hr] at h
       | err e => simp [hr] at h
       | panic p => simp only [hr, Outcome.panic.injEq] at h; rw [h]
@@ -240,9 +288,10 @@ theorem parseInscription_ok_id {s : List Char} {v : InscriptionId.Val}
       · split at h <;> cases h
       · cases h
 
-theorem parseRune_ok_id {s : List Char} {b t : Nat} (h : parseRune s = .ok (.id b t)) :
+theorem parseRune_ok_id {fixed : Bool} {s : List Char} {b t : Nat}
+    (h : parseRuneWith fixed s = .ok (.id b t)) :
     ∃ bs ts, s = bs ++ ':' :: ts ∧ Numeral bs b ∧ b < 2 ^ 64 ∧ Numeral ts t ∧ t < 2 ^ 32 := by
-  unfold parseRune at h
+  unfold parseRuneWith at h
   split at h
   · cases hr : Sub.runeIdFromStr s with
     | ok v =>
@@ -256,9 +305,10 @@ theorem parseRune_ok_id {s : List Char} {b t : Nat} (h : parseRune s = .ok (.id 
     · split at h <;> cases h
     · split at h <;> cases h
 
-theorem parseRune_ok_number {s : List Char} {n : Nat} (h : parseRune s = .ok (.number n)) :
+theorem parseRune_ok_number {fixed : Bool} {s : List Char} {n : Nat}
+    (h : parseRuneWith fixed s = .ok (.number n)) :
     Numeral s n ∧ n < 2 ^ 64 := by
-  unfold parseRune at h
+  unfold parseRuneWith at h
   split at h
   · split at h <;> cases h
   · split at h
